@@ -60,10 +60,12 @@ def run(rep, tier):
     doneflag(rep, dbg)
     dispatch_paths(rep, vm)
     shared(rep, dbg)
+    setops(rep, dbg)
     cli = f.crate("pest_debugger", kind="Executable")
     if cli is not None and cli is not dbg:
         recvorder(rep, cli)
         startuporder(rep, cli)
+        freshchannel(rep, cli)
 
 
 def spawner(dbg):
@@ -493,3 +495,84 @@ def startuporder(rep, cli):
                 break
     if n == 0:
         r.lost("a CLI function that both starts a session and adds breakpoints (start-up from command-line arguments)")
+
+
+def setops(rep, dbg):
+    r = rep.rule("C17.SETOPS", 3,
+                 "the breakpoint set changes only element by element, and each operation changes it in its own direction: "
+                 "functions that add breakpoints only insert, functions that delete only remove (or clear) - none assigns "
+                 "a new set through the lock guard, which would silently drop the breakpoints (e.g. on built-in rules) the "
+                 "controller added before")
+    n = 0
+    for fn in dbg.bodies:
+        if fn.get("impl_self") != DC or fn.get("body") is None or fn.get("exp"):
+            continue
+        # locals holding the guard of the breakpoint set
+        guards = set()
+        for x in walk(fn["body"]):
+            if x.get("k") == "Let" and x.get("init") is not None and any(
+                    kind(y) == "MethodCall" and y["m"] == "lock" and (hirq.place(y["recv"]) or ("", 0, [""]))[2][-1:] == ["breakpoints"]
+                    for y in walk(x["init"])):
+                for (bid, nm) in hirq.pat_bindings(x["pat"]):
+                    guards.add(bid)
+        if not guards:
+            continue
+        adds = "add" in fn["name"]
+        dels = any(s in fn["name"] for s in ("delete", "remove", "clear"))
+        if not (adds or dels):
+            continue
+        n += 1
+        key = fn["name"]
+        r.instance(key, where(fn["body"]))
+        for x in walk(fn["body"]):
+            if kind(x) == "Assign":
+                tgt = peel(x["l"])
+                if hirq.local_id(tgt) in guards or (kind(x["l"]) == "Unary" and hirq.local_id(x["l"]["e"]) in guards):
+                    r.violation(key + ":assign", where(x),
+                                "%s assigns a whole new set through the lock guard: every breakpoint that is not in the new "
+                                "set (for instance one on a built-in rule such as EOI) disappears" % fn["name"])
+            if kind(x) == "MethodCall" and hirq.local_id(x["recv"]) in guards:
+                m_ = x["m"]
+                if adds and m_ in ("remove", "clear", "retain", "drain", "take"):
+                    r.violation(key + ":" + m_, where(x), "%s removes breakpoints (%s)" % (fn["name"], m_))
+                if dels and m_ in ("insert", "extend"):
+                    r.violation(key + ":" + m_, where(x), "%s adds breakpoints (%s)" % (fn["name"], m_))
+    if n == 0:
+        r.lost("the add_* / delete_* operations on the breakpoint set")
+
+
+def freshchannel(rep, cli):
+    r = rep.rule("C17.FRESHCHANNEL", 1,
+                 "every session the CLI starts reports through its own channel: the sender handed to DebuggerContext::run "
+                 "comes from a channel created on the same path, not from one kept from an earlier run - the parser "
+                 "thread that run() stops still sends its last event, which on a shared channel is read as the first "
+                 "event of the new session (and every later `c` is one event behind)")
+    n = 0
+    for fn in cli.bodies:
+        if fn.get("body") is None or fn.get("exp"):
+            continue
+        runs = [x for x in walk(fn["body"]) if kind(x) in ("Call", "MethodCall") and str(callee(x)).endswith("DebuggerContext::run")]
+        if not runs:
+            continue
+        lets = hirq.lets(fn["body"])
+        for rn in runs:
+            n += 1
+            key = fn["path"].replace("pest_debugger::", "")
+            r.instance(key, where(rn))
+            sender = peel(rn["args"][-1])
+            lid = hirq.local_id(sender)
+            src = hirq.binding_source(fn, lid) if lid is not None else sender
+            hops = 0
+            while src is not None and kind(peel(src)) == "Path" and peel(src).get("res") == "local" and hops < 3:
+                src = hirq.binding_source(fn, peel(src)["id"])
+                hops += 1
+            fresh = src is not None and any(kind(y) == "Call" and str(callee(y)).endswith(("mpsc::sync_channel", "mpsc::channel"))
+                                            for y in walk(src)) and not any(
+                kind(y) == "Field" and "Cli" in str(y.get("bty", "")) for y in walk(src))
+            if not fresh:
+                r.violation(key, where(rn),
+                            "the sender given to DebuggerContext::run (`%s`) is not created by a channel constructor in this "
+                            "function: a channel that outlives one run also carries the final event of the session that "
+                            "run() terminates" % hirq.expr_text(rn["args"][-1])[:40])
+    if n == 0:
+        r.lost("the CLI function that calls DebuggerContext::run")
